@@ -460,3 +460,26 @@ Qed.
 (** a name at the limit: nothing at all is written *)
 Lemma too_long_writes_nothing n v d i : fits n = false -> apply_ops d (firstn i (set_ops_os n v)) = d.
 Proof. intros H. unfold set_ops_os. rewrite H, firstn_nil. reflexivity. Qed.
+
+(** ------------ two Sets of one key ------------ *)
+(** one after the other (the writes are serialised by a mutex, repair ea831b1): the key holds the
+    second value in full *)
+Lemma sets_one_after_the_other d n v1 v2 :
+  fs_get (apply_ops d (set_ops true n v1 ++ set_ops true n v2)) n = Some v2.
+Proof. rewrite apply_ops_app. apply set_atomic_after_leftover. apply eqb_list_refl. Qed.
+
+(** overlapping (both go through the one temp file): there is an interleaving after which the key
+    holds neither value — the short one followed by the tail of the long one *)
+Lemma overlapping_sets_refuted :
+  let k := [107] in let long := [1; 2; 3; 4; 5; 6] in let short := [9] in
+  exists l, merge l (set_ops true k long) (set_ops true k short) /\
+            fs_get (apply_ops [] l) k = Some [9; 2; 3; 4; 5; 6].
+Proof.
+  cbn zeta.
+  exists [OpenCreateTrunc (tmp_of [107]); OpenCreateTrunc (tmp_of [107]); WriteAt0 (tmp_of [107]) [1; 2; 3; 4; 5; 6];
+          WriteAt0 (tmp_of [107]) [9]; Sync (tmp_of [107]); Close (tmp_of [107]); Rename (tmp_of [107]) [107];
+          Sync (tmp_of [107]); Close (tmp_of [107]); Rename (tmp_of [107]) [107]].
+  split; [|vm_compute; reflexivity].
+  unfold set_ops.
+  apply merge_l, merge_r, merge_l, merge_r, merge_l, merge_l, merge_l, merge_r, merge_r, merge_r, merge_nil.
+Qed.
